@@ -4,7 +4,6 @@ import (
 	"fmt"
 	"math"
 	"math/rand"
-	"net"
 	"strconv"
 	"strings"
 	"sync"
@@ -413,13 +412,8 @@ func runC20Gossip(r *rand.Rand, sh *core.Shard, dur time.Duration) (sig, what st
 	}
 	var gs []*gn
 	for i := 0; i < N; i++ {
-		sln, err := net.Listen("tcp", "127.0.0.1:0")
+		sln, pln, err := gsim.ListenPair()
 		if err != nil {
-			return "", "", err.Error()
-		}
-		pln, err := net.ListenUDP("udp", &net.UDPAddr{IP: net.IPv4(127, 0, 0, 1), Port: sln.Addr().(*net.TCPAddr).Port})
-		if err != nil {
-			sln.Close()
 			return "", "", err.Error()
 		}
 		conf := &gossip.Config{BindAddr: sln.Addr().String(), AdvertiseAddr: sln.Addr().String(), Interval: 5 * time.Millisecond, MaxPacketSize: 300 + r.Intn(1100)}
